@@ -69,7 +69,9 @@ fn is_identifier_name(name: &str) -> bool {
     let mut chars = name.chars();
     match chars.next() {
         Some(first) if first.is_alphabetic() || first == '_' || first == '$' => {
-            chars.all(|c| c.is_alphanumeric() || c == '_' || c == '$')
+            // `is_alphanumeric` is too wide: it accepts superscripts, fractions and circled numbers,
+            // which are not identifier characters in ECMAScript. Other digits get quoted (always valid)
+            chars.all(|c| c.is_alphabetic() || c.is_ascii_digit() || c == '_' || c == '$')
         }
         _ => false,
     }
